@@ -25,6 +25,7 @@ import (
 	"github.com/drand/drand/v2/crypto"
 	"github.com/drand/drand/v2/internal/chain/boltdb"
 	"github.com/drand/drand/v2/internal/dkg"
+	drandcli "github.com/drand/drand/v2/internal/drand-cli"
 	dfs "github.com/drand/drand/v2/internal/fs"
 	"github.com/drand/drand/v2/zzverif/engkeys"
 )
@@ -137,6 +138,14 @@ func childModes() error {
 		return err
 	}
 	base := os.Getenv("ZZV_DIR")
+	if os.Getenv("ZZV_PRIOR") == scenarioCLI {
+		return childCLI(int(um), base)
+	}
+	if os.Getenv("ZZV_PRIOR") == scenarioCLI+"-nuke" {
+		// one operator command in its own process (it keeps dkg.db open and locked until it exits)
+		syscall.Umask(int(um))
+		return drandcli.CLI().Run([]string{"drand", "dkg", "nuke", "--folder", base, "--id", common.DefaultBeaconID})
+	}
 	var prior os.FileMode
 	hasPrior := false
 	if p := os.Getenv("ZZV_PRIOR"); p != "" {
@@ -256,8 +265,36 @@ func childModes() error {
 	if err := cst.Close(); err != nil {
 		return err
 	}
+	obs, err := observe(base, secrets)
+	if err != nil {
+		return err
+	}
+	// ---- while the secrets are being written: what can a concurrent reader get at, and with which mode? ----
+	var phase atomic.Value
+	phase.Store("")
+	stop, done := make(chan struct{}), make(chan []fileObs, 1)
+	go watchSecrets(base, []string{filepath.Join(mb, beaconID, key.FolderName), filepath.Join(mb, beaconID, key.GroupFolderName)}, secrets, &phase, stop, done)
+	const reps = 6
+	for i := 1; i <= reps; i++ {
+		phase.Store(fmt.Sprintf("inside SaveShare (repetition %d of %d), before the file reached its final name", i, reps))
+		if err := st.SaveShare(shares[0]); err != nil {
+			return fmt.Errorf("SaveShare (repetition %d): %w", i, err)
+		}
+		phase.Store(fmt.Sprintf("inside SaveKeyPair (repetition %d of %d), before the file reached its final name", i, reps))
+		if err := st.SaveKeyPair(pairs[0]); err != nil {
+			return fmt.Errorf("SaveKeyPair (repetition %d): %w", i, err)
+		}
+	}
+	close(stop)
+	obs = append(obs, <-done...)
+	b, _ := json.Marshal(obs)
+	return os.WriteFile(os.Getenv("ZZV_OUTFILE"), b, 0o600)
+}
+
+// observe stats every file and folder under base and says which files hold one of the secrets.
+func observe(base string, secrets []secret) ([]fileObs, error) {
 	var obs []fileObs
-	err = filepath.WalkDir(base, func(p string, d fs.DirEntry, err error) error {
+	err := filepath.WalkDir(base, func(p string, d fs.DirEntry, err error) error {
 		if err != nil {
 			return err
 		}
@@ -281,27 +318,89 @@ func childModes() error {
 		obs = append(obs, o)
 		return nil
 	})
+	return obs, err
+}
+
+// scenarioCLI (passed in the place of the pre-existing mode) selects the operator scenario.
+const scenarioCLI = "cli"
+
+// childCLI: the files that hold secrets can also be created by the OPERATOR's commands, before or
+// between runs of the daemon. Under the given umask, on a folder that does not exist yet:
+//
+//	drand generate-keypair          creates the key folder and drand_id.private
+//	(start-up migration) SelfSignAll re-saves the key pair when its self-signature does not verify
+//	drand dkg nuke                   opens (and so creates) dkg.db when there is none yet
+//	daemon: NewDKGStore + SaveFinished  then writes the share into that dkg.db
+//
+// and every file is stat-ed and searched for the node's secrets afterwards.
+func childCLI(um int, base string) error {
+	syscall.Umask(um)
+	beaconID := common.DefaultBeaconID
+	mb := filepath.Join(base, common.MultiBeaconFolder)
+	run := func(args ...string) error { return drandcli.CLI().Run(append([]string{"drand"}, args...)) }
+	if err := run("generate-keypair", "--folder", base, "--id", beaconID, "127.0.0.1:9190"); err != nil {
+		return fmt.Errorf("generate-keypair: %w", err)
+	}
+	st := key.NewFileStore(mb, beaconID)
+	pair, err := st.LoadKeyPair()
+	if err != nil {
+		return fmt.Errorf("generate-keypair left no loadable key pair: %w", err)
+	}
+	// a key pair whose self-signature does not verify (v1 keys): the start-up migration signs and saves it again
+	pubFile := filepath.Join(mb, beaconID, key.FolderName, "drand_id.public")
+	if b, err := os.ReadFile(pubFile); err == nil {
+		sig := fmt.Sprintf("%x", pair.Public.Signature)
+		b2 := []byte(strings.Replace(string(b), sig, strings.Repeat("0", len(sig)), 1))
+		fi, _ := os.Stat(pubFile)
+		if err := os.WriteFile(pubFile, b2, fi.Mode().Perm()); err != nil {
+			return err
+		}
+	}
+	if err := key.SelfSignAll(log.New(&logSink{}, log.ErrorLevel, true), mb); err != nil {
+		return fmt.Errorf("SelfSignAll: %w", err)
+	}
+	// drand dkg nuke asks for confirmation on the standard input; it runs in a process of its own, as it
+	// does for the operator: the command never closes dkg.db, the lock goes away with the process
+	nuke := exec.Command(os.Args[0], "secrecy")
+	nuke.Env = append(os.Environ(), "ZZV_PRIOR="+scenarioCLI+"-nuke")
+	nuke.Stdin = strings.NewReader("y\n")
+	if out, err := nuke.CombinedOutput(); err != nil {
+		return fmt.Errorf("dkg nuke: %v: %s", err, tail(string(out), 400))
+	}
+	// the daemon then completes a DKG and records it
+	rng := rand.New(rand.NewSource(int64(um) + 77))
+	sch := pair.Scheme()
+	pairs := []*key.Pair{pair}
+	for i := 1; i < 3; i++ {
+		p, err := newPair(rng, fmt.Sprintf("127.0.0.1:%d", 9190+i), sch)
+		if err != nil {
+			return err
+		}
+		pairs = append(pairs, p)
+	}
+	shares, commits := deal(rng, sch, sch.KeyGroup.Scalar().Pick(rngStream{R: rng}), 3, 2)
+	group := mkGroup(sch, pairs, commits, 2, 1700000000, 3*time.Second, beaconID)
+	dst, err := dkg.NewDKGStore(base)
+	if err != nil {
+		return fmt.Errorf("NewDKGStore: %w", err)
+	}
+	fin := dkg.NewFreshState(beaconID)
+	fin.Epoch, fin.State, fin.Threshold, fin.SchemeID = 1, dkg.Complete, 2, sch.Name
+	fin.GenesisTime, fin.Timeout = time.Unix(group.GenesisTime, 0).UTC(), time.Unix(group.GenesisTime, 0).UTC()
+	fin.GenesisSeed, fin.BeaconPeriod, fin.CatchupPeriod = group.GenesisSeed, group.Period, group.CatchupPeriod
+	fin.FinalGroup, fin.KeyShare = group, shares[0]
+	if err := dst.SaveFinished(beaconID, fin); err != nil {
+		return fmt.Errorf("SaveFinished: %w", err)
+	}
+	if err := dst.Close(); err != nil {
+		return err
+	}
+	kb, _ := pair.Key.MarshalBinary()
+	sb, _ := shares[0].Share.V.MarshalBinary()
+	obs, err := observe(base, []secret{newSecret("key", kb), newSecret("share", sb)})
 	if err != nil {
 		return err
 	}
-	// ---- while the secrets are being written: what can a concurrent reader get at, and with which mode? ----
-	var phase atomic.Value
-	phase.Store("")
-	stop, done := make(chan struct{}), make(chan []fileObs, 1)
-	go watchSecrets(base, []string{filepath.Join(mb, beaconID, key.FolderName), filepath.Join(mb, beaconID, key.GroupFolderName)}, secrets, &phase, stop, done)
-	const reps = 6
-	for i := 1; i <= reps; i++ {
-		phase.Store(fmt.Sprintf("inside SaveShare (repetition %d of %d), before the file reached its final name", i, reps))
-		if err := st.SaveShare(shares[0]); err != nil {
-			return fmt.Errorf("SaveShare (repetition %d): %w", i, err)
-		}
-		phase.Store(fmt.Sprintf("inside SaveKeyPair (repetition %d of %d), before the file reached its final name", i, reps))
-		if err := st.SaveKeyPair(pairs[0]); err != nil {
-			return fmt.Errorf("SaveKeyPair (repetition %d): %w", i, err)
-		}
-	}
-	close(stop)
-	obs = append(obs, <-done...)
 	b, _ := json.Marshal(obs)
 	return os.WriteFile(os.Getenv("ZZV_OUTFILE"), b, 0o600)
 }
